@@ -918,7 +918,7 @@ class Engine:
             if ng < 0:
                 continue
             body_h = z3.Implies(z3.And(rng, *conds[:ng]), h)
-            st.assume(z3.ForAll([j], body_h, patterns=jpat) if jpat else z3.ForAll([j], body_h))
+            st.assume(SQ.forall([j], body_h, patterns=jpat) if jpat else z3.ForAll([j], body_h))
         if kind == "dict":
             kt, vt = self.type_of(kv, n), self.type_of(vv, n)
             dty = TDict(kt, vt)
@@ -936,8 +936,14 @@ class Engine:
             if conds:
                 raise OutOfSubset(n, "filtered dict comprehension")
             st.assume(SQ.length(keys) == ln)
-            st.assume(z3.ForAll([j], z3.Implies(cond, z3.And(SQ.at(keys, j) == kterm, z3.Select(s.val(res.t), kterm) == vterm)),
-                                patterns=[SQ.at(keys, j)]))
+            st.assume(SQ.forall([j], z3.Implies(cond, z3.And(SQ.at(keys, j) == kterm, z3.Select(s.val(res.t), kterm) == vterm)),
+                                patterns=[SQ.at(keys, j)] + jpat))
+            # derived membership fact (lets the solver go from "x is a source element" to "x is a key")
+            kx = z3.Const(f"ck!{st.fresh_n}", kt.sort())
+            mpats = [SQ.has(keys, kx)]
+            if isinstance(it, V) and isinstance(it.ty, TSeq) and z3.simplify(kterm).eq(z3.simplify(SQ.at(it.t, j))):
+                mpats.append(SQ.has(it.t, kx))
+            st.assume(SQ.forall([kx], SQ.has(keys, kx) == SQ.exists([j], z3.And(cond, kterm == kx), patterns=jpat), patterns=mpats))
             self.merge_fresh(st, inner)
             return res
         et = self.type_of(body, n)
@@ -945,15 +951,15 @@ class Engine:
         res = self.fresh(st, TSeq(et), "comp")
         if not conds:
             st.assume(SQ.length(res.t) == ln)
-            st.assume(z3.ForAll([j], z3.Implies(z3.And(0 <= j, j < ln), SQ.at(res.t, j) == bterm), patterns=[SQ.at(res.t, j)]))
+            st.assume(SQ.forall([j], z3.Implies(z3.And(0 <= j, j < ln), SQ.at(res.t, j) == bterm), patterns=[SQ.at(res.t, j)]))
         else:
             # filter: membership characterisation (+ length bound; order preservation is not encoded)
             x = z3.Const(f"cx!{st.fresh_n}", et.sort())
             pats = [SQ.has(res.t, x)]
             if isinstance(it, V) and isinstance(it.ty, TSeq) and z3.simplify(bterm).eq(z3.simplify(SQ.at(it.t, j))):
                 pats.append(SQ.has(it.t, x))  # identity-bodied filter: also instantiate from membership in the source
-            inner_ex = z3.Exists([j], z3.And(0 <= j, j < ln, *conds, bterm == x), patterns=jpat) if jpat else z3.Exists([j], z3.And(0 <= j, j < ln, *conds, bterm == x))
-            st.assume(z3.ForAll([x], SQ.has(res.t, x) == inner_ex, patterns=pats))
+            inner_ex = SQ.exists([j], z3.And(0 <= j, j < ln, *conds, bterm == x), patterns=jpat) if jpat else z3.Exists([j], z3.And(0 <= j, j < ln, *conds, bterm == x))
+            st.assume(SQ.forall([x], SQ.has(res.t, x) == inner_ex, patterns=pats))
             st.assume(SQ.length(res.t) <= ln)
             # order: a strictly increasing bijection between result positions and kept source positions
             src = z3.Function(f"src!{st.fresh_n}", z3.IntSort(), z3.IntSort())
@@ -965,8 +971,8 @@ class Engine:
             rl = SQ.length(res.t)
             st.assume(z3.ForAll([q], z3.Implies(z3.And(0 <= q, q < rl), z3.And(0 <= src(q), src(q) < ln, keep_at(src(q)), SQ.at(res.t, q) == b_at(src(q)), dst(src(q)) == q)),
                                 patterns=[src(q)]))
-            st.assume(z3.ForAll([q], z3.Implies(z3.And(0 <= q, q < ln, keep_at(q)), z3.And(0 <= dst(q), dst(q) < rl, src(dst(q)) == q)), patterns=[dst(q)]))
-            st.assume(z3.ForAll([q, q2], z3.Implies(z3.And(0 <= q, q < q2, q2 < rl), src(q) < src(q2)), patterns=[z3.MultiPattern(src(q), src(q2))]))
+            st.assume(SQ.forall([q], z3.Implies(z3.And(0 <= q, q < ln, keep_at(q)), z3.And(0 <= dst(q), dst(q) < rl, src(dst(q)) == q)), patterns=[dst(q)]))
+            st.assume(SQ.forall([q, q2], z3.Implies(z3.And(0 <= q, q < q2, q2 < rl), src(q) < src(q2)), patterns=[z3.MultiPattern(src(q), src(q2))]))
         self.merge_fresh(st, inner)
         return res
 
@@ -1028,9 +1034,8 @@ class Engine:
 
     # ----------------------------------------------------------------- calls
     def ev_Call(self, n, st):
-        for a in n.args:
-            if isinstance(a, ast.Starred):
-                break
+        if isinstance(n.func, ast.Name) and n.func.id == "cast" and len(n.args) == 2 and "cast" not in st.env:
+            return self.ev(n.args[1], st)  # typing.cast(T, x) is the identity; T is a type expression, not evaluated
         f = self.ev_callee(n.func, st)
         args = []
         for a in n.args:
